@@ -9,6 +9,7 @@ pub uninterp spec fn vm_norm(a: Seq<F>) -> F;
 pub uninterp spec fn vm_norm_inf(a: Seq<F>) -> F;
 pub uninterp spec fn vm_norm_scaled(a: Seq<F>, b: Seq<F>) -> F;
 pub uninterp spec fn vm_sumsq(a: Seq<F>) -> F;
+pub uninterp spec fn vm_norm_inf_scaled(a: Seq<F>, b: Seq<F>) -> F;
 pub uninterp spec fn vm_minimum(a: Seq<F>) -> F;
 pub uninterp spec fn vm_maximum(a: Seq<F>) -> F;
 pub uninterp spec fn vm_mean(a: Seq<F>) -> F;
@@ -67,6 +68,10 @@ pub trait VectorMath {
     fn norm_scaled(&self, v: &Self) -> (r: F)
         requires self.vw().len() == v.vw().len(),
         ensures r == vm_norm_scaled(self.vw(), v.vw());
+    // assert_eq! on the lengths
+    fn norm_inf_scaled(&self, v: &Self) -> (r: F)
+        requires self.vw().len() == v.vw().len(),
+        ensures r == vm_norm_inf_scaled(self.vw(), v.vw());
     fn minimum(&self) -> (r: F) ensures r == vm_minimum(self.vw());
     fn maximum(&self) -> (r: F) ensures r == vm_maximum(self.vw());
     fn mean(&self) -> (r: F) ensures r == vm_mean(self.vw());
@@ -88,6 +93,7 @@ impl VectorMath for [F] {
     #[verifier::external_body] fn norm(&self) -> (r: F) { unimplemented!() }
     #[verifier::external_body] fn norm_inf(&self) -> (r: F) { unimplemented!() }
     #[verifier::external_body] fn norm_scaled(&self, v: &[F]) -> (r: F) { unimplemented!() }
+    #[verifier::external_body] fn norm_inf_scaled(&self, v: &[F]) -> (r: F) { unimplemented!() }
     #[verifier::external_body] fn minimum(&self) -> (r: F) { unimplemented!() }
     #[verifier::external_body] fn maximum(&self) -> (r: F) { unimplemented!() }
     #[verifier::external_body] fn mean(&self) -> (r: F) { unimplemented!() }
